@@ -9,19 +9,6 @@ func init() {
 	vRegister("zzC19Post", func(a []int) { zzC19Post(a[0]) })
 }
 
-func zzMin(a, b float64) float64 {
-	if a < b {
-		return a
-	}
-	return b
-}
-func zzMax(a, b float64) float64 {
-	if a > b {
-		return a
-	}
-	return b
-}
-
 // prefix: thermal properties and boundary values
 func zzC19Pre(n int) {
 	g := new(GlobalVarsMain)
@@ -52,6 +39,16 @@ func zzC19Pre(n int) {
 		g.WG[0][i] = vFloat("wg", i)
 		vAssume(0.001 <= g.WG[0][i] && g.WG[0][i] <= 0.7)
 		g.TDSUM[i] = vFloat("tdsum", i)
+	}
+	// the rest of the soil description (one or two horizons, stone content)
+	g.AZHO = 1 + n%2
+	g.UKT[0], g.UKT[1], g.UKT[2] = 0, 1, n
+	if g.AZHO == 1 {
+		g.UKT[1] = n
+	}
+	for h := 0; h < g.AZHO; h++ {
+		g.STEIN[h] = vFloat("stein", h)
+		vAssume(0 <= g.STEIN[h] && g.STEIN[h] <= 0.9)
 	}
 	old0 := g.TSOIL[0][0]
 	tmin, tmax := g.TMIN[5], g.TMAX[5]
